@@ -30,13 +30,21 @@ CLAIMS = {
     'C17': claim('CronSchedule::next decided by a loop-invariant cut of its real CFG, for ALL schedules at once (five symbolic sets): prologue (start = max(now minute, last) + 1 min, restriction flags), exit edge (returns a matching whole minute and records it), and each of the four continue edges '
                  '(later whole minute, no matching minute skipped; field-constancy lemmas about the getters discharged in the same run). Any number of carry steps and call histories follow by induction (stated meta-step). Clock/loop state in 2022-2025 (quick) or 1970-9999 (thorough), offset 0. Counterexamples are replayed end to end against the real next() and a minute-by-minute search.', '3/C17',
                  technique='MIR symbolic execution started at CFG cut points (loop invariant), symbolic sets, UF getters + proven lemmas -> SMT; native end-to-end replay'),
+    'C18': claim('The TZif reader and lookup executed from MIR in three parts. (1) Transition table read from bytes: version 1 and version 2/3 files with the listed numbers of transitions and types, every content byte symbolic, '
+                 'every timestamp from the first transition on: the resolved offset is the type of the latest transition at or before the timestamp (oracle decodes the bytes independently). '
+                 '(2) Footer: for every file whose footer follows one of the listed POSIX-TZ class templates (all digits symbolic) and is well formed according to an independent reference reader, the reader accepts it and builds exactly the denoted rule; a fixed rule answers every lookup from the last transition on. '
+                 '(3) Rule semantics for ALL accepted rules (Jn / n / Mm.w.d, any rule time in +-167 h, any pair of offsets) and all timestamps of the inner years: each rule instant equals a closed-form calendar reference (Jn skips 29 February, week 5 = last), and the lookup answers daylight time exactly between the two instants in either order; '
+                 'calendar closed forms enter as uninterpreted functions constrained by contracts and lemmas that are obligations of the same run. NOT decided: files outside the listed shapes, the first/last representable year, Offset::Local I/O, agreement of the reference with CPython zoneinfo.', '0/C18',
+                 technique='MIR symbolic execution with a bounded byte-string model (class-fixed and free bytes), contracts/UF for calendar kernels -> SMT; independent reference readers in Rust as oracles; native replay'),
+    'C19': claim('Reader half: TimeZone::from_tzif executed from MIR on bounded families of byte strings: version-1 files of each length 44..58 with ALL six counts (< 256; two shapes with all 32 bits) and all content bytes symbolic (so overrunning counts, every truncation, every type index are inside), truncated headers, wrong magic, unsupported versions, larger fixed tables exact / short / with trailing bytes, '
+                 'version 2/3 files with ~75 footer templates (valid, hostile: missing parts, oversized numbers, NUL, non-UTF-8, stray bytes) and every single-byte ASCII substitution / insertion / deletion of base templates, short all-free footers: the reader returns (Ok or Err), never panics, table / fixed-rule lookups succeed for every i64 timestamp, and every accepted alternating rule has fields in the validated ranges. '
+                 'Lookup half: for EVERY rule the reader can accept (those ranges) x every rule time x every timestamp of the DateTime range the rule lookup returns, except the listed known finding (first/last representable year).', '0/C19',
+                 technique='MIR symbolic execution with a bounded byte-string model, symbolic-length slices/Vec, contracts for calendar kernels -> SMT; reader post-condition + lookup pre-condition composition; native replay'),
     'C15': claim('from_ymdhms/from_hms/from_seconds/from_nanos/Offset constructors/set_*: Ok exactly for valid arguments with the oracle value; stated ranges exclude the rejected value and contain every accepted one (relational query), over the full parameter domains.', '3/C15'),
 }
 NOT_APPLICABLE = {
     'C12': 'parse(format(v, p), p): both directions run through the String/Vec<String> tokenizer and char-level consumers, out of reach of CBMC (memory) and of the MIR engine (no model of alloc::string at that scale); deciding it on concrete patterns and values would be enumeration, not solving.',
     'C16': 'the quantified object is the cron expression string; parse_cron_part is split/strip_prefix/to_lowercase/HashSet::extend code that neither engine can execute symbolically. The set semantics once a schedule exists are covered by C17 for all value sets.',
-    'C18': 'TZif lookup: the footer text (POSIX TZ string) and the rule-based lookups run through from_utf8/trim_matches/Cursor closures and Vec-returning calendar helpers; Kani does not finish on them, and even the table-only Kani harnesses built here (props/append_local-timezone__verif_tz.rs) did not finish their successful-path proofs within 5 minutes per harness, so nothing is claimed. Two genuine defects found on the way were repaired (known_findings.json).',
-    'C19': 'hostile TZif data: same reach problem as C18; the Kani harnesses for version-1 shapes found the unchecked type index (repaired) but do not finish on the repaired tree within the caps, so the property is not claimed.',
     'C20': 'Display/FromStr/serde: every path is format()/parse() on Strings (plus the optional serde dependency, which is not in the offline build); the one reachable piece, DateTime::from_str == parse_rfc3339, is covered under C13/C14.',
 }
 PENDING = 'check not built yet in this revision (planned with the same solver-based technique, see DESIGN.md section 3)'
@@ -65,7 +73,6 @@ def manifest():
         'hooks': {'guard': 'none', 'enable': 'no source hooks: checks copy /repo/src into a scratch crate and inject /verif/props (cron properties build the copy with --cfg test to use the crate\'s own clock pin)',
                   'baseline_off_cmd': 'cd /repo && cargo test --workspace --no-fail-fast --offline', 'source_commits': [], 'add_only': True},
         'engines': [
-            {'name': 'engine_k', 'path': '/verif/engine_k.py', 'serves_properties': [], 'kind_free_text': 'Kani/CBMC harness runner for the TZif reader (built; its harnesses do not finish within the caps on this code, so it serves no registered check)'},
             {'name': 'engine_m', 'path': '/verif/engine_m', 'serves_properties': sorted(CLAIMS), 'kind_free_text': 'symbolic executor for rustc MIR text -> SMT-LIB2 (linear integer arithmetic + UF), solvers cvc5 / z3 raced; native replay of every counterexample'},
         ],
         'checks': checks,
